@@ -55,6 +55,9 @@ func DetachClearSign(w io.Writer, signer *openpgp.Entity, message io.Reader, con
 	done := make(chan error)
 	go func() {
 		tail, err := tailClearSign(readPipe)
+		// if scanning stopped early (e.g. a line too long for the scanner) unblock
+		// the writer below instead of deadlocking with it
+		_ = readPipe.CloseWithError(err)
 		if err == nil {
 			_, err = w.Write(tail)
 		}
